@@ -216,6 +216,7 @@ func execBigraph(a []Tok) string {
 	for v := range g {
 		ins[v] = b.In(v)
 	}
+	appendProbe("BiGraph.In", ins)
 	return fmtIntss(ins)
 }
 
